@@ -196,6 +196,8 @@ func RunC05(c *Ctx, r *Report) {
 	w.strideRule(r, prefix+"record-stride")
 	// a reference-built record of the shortest length the domain allows is not refused for its length
 	w.lengthGuardRule(r, prefix+"decode.length-guards")
+	c.counterNoWrapRule(r, prefix+"codec.counter-no-wrap")
+	c.guardedNarrowingRule(r, prefix+"encode.guarded-narrowing")
 	// the header's next-payload octet is what the encoder computes from the payload list (0 for an empty list),
 	// never a value an earlier Decode or Encode left in the header object
 	c.bookkeepingRecomputedRule(r, prefix, c.EncodeScope(r, prefix), map[string]bool{"field:message.IKEHeader.NextPayload": true, "field:message.IKEHeader.PayloadBytes": true})
